@@ -169,11 +169,15 @@ def get_facts(repo=None, need=("dev",), quiet=False):
             built.append("stack")
         if built and not quiet:
             print("[facts] built %s for tree %s in %.1fs" % (", ".join(built), h, time.time() - t0), file=sys.stderr)
+        try:
+            os.utime(d)   # most recently used: the entry of the tree that is checked again and again is not the one to evict
+        except OSError:
+            pass
         _gc(keep=d)
         return d
 
 
-def _gc(keep, max_keep=6):
+def _gc(keep, max_keep=12):
     base = os.path.join(CACHE, "facts")
     ds = [os.path.join(base, x) for x in os.listdir(base)]
     ds = [x for x in ds if os.path.isdir(x) and x != keep]
